@@ -263,11 +263,129 @@ pub fn run_case(ctx: &Ctx, case: &Case) -> Outcome {
     out
 }
 
+// ------------------------------------------------------------------ concurrent clients on the primary
+// Two or three client sessions on the primary run at once (their commands interleave at nun-db's lock acquisitions
+// and before the hand-over to the replication channel, E2 baton schedule); everything they replicate is then
+// delivered in order and the secondary must equal the primary.
+
+#[derive(Clone, Debug, Serialize, Deserialize)]
+pub struct ConcCase {
+    pub programs: Vec<Vec<Cmd>>,
+    pub schedule: Vec<u16>,
+}
+
+fn conc_cmd_strategy() -> impl Strategy<Value = Cmd> {
+    let k = select(vec!["a", "n"]).prop_map(|s| s.to_string());
+    prop_oneof![
+        3 => k.clone().prop_map(|k| Cmd::Set { k }),
+        4 => select(vec![1, 3]).prop_map(|n| Cmd::Inc { k: "n".to_string(), n }),
+        1 => k.clone().prop_map(|k| Cmd::Remove { k }),
+    ]
+}
+
+pub fn conc_case_strategy() -> impl Strategy<Value = ConcCase> {
+    (prop::collection::vec(prop::collection::vec(conc_cmd_strategy(), 1..4), 2..4), prop::collection::vec(prop_oneof![2 => Just(0u16), 3 => any::<u16>()], 0..40)).prop_map(|(programs, schedule)| ConcCase { programs, schedule })
+}
+
+fn conc_sites(site: &str) -> bool {
+    crate::sched::lock_sites(site) || site == "process_request.before_replicate"
+}
+
+pub fn run_conc_case(ctx: &Ctx, case: &ConcCase) -> Outcome {
+    let scratch = ctx.fresh_dir();
+    let mut c = match boot_cluster(&scratch, 2) {
+        Ok(c) => c,
+        Err(e) => {
+            ctx.drop_dir(&scratch);
+            return Outcome::failed("C04|set-up", e);
+        }
+    };
+    c.client(0, vec![format!("auth {} {}", crate::node::USER, crate::node::PWD), "create-db d tok".into(), "use-db d tok".into(), "set a a0".into(), "set n 5".into()]);
+    let mut fail: Option<(String, String)> = None;
+    if !c.run(&mut |_| 0, 400_000) {
+        fail = Some(("C04|set-up".into(), "the cluster did not become quiet after creating the database".into()));
+    }
+    let mut switches = 0;
+    let mut same_key = false;
+    if fail.is_none() {
+        let mut programs = vec![];
+        let mut keys_by_prog: Vec<Vec<String>> = vec![];
+        for (pi, p) in case.programs.iter().enumerate() {
+            let mut lines = vec![format!("auth {} {}", crate::node::USER, crate::node::PWD), "use-db d tok".to_string()];
+            for (ci, cmd) in p.iter().enumerate() {
+                lines.push(render(cmd, &format!("p{}c{}", pi, ci), 0));
+            }
+            keys_by_prog.push(p.iter().filter_map(key_of).collect());
+            programs.push(lines);
+        }
+        same_key = (0..keys_by_prog.len()).any(|i| (i + 1..keys_by_prog.len()).any(|j| keys_by_prog[i].iter().any(|k| keys_by_prog[j].contains(k))));
+        match c.clients_interleaved_with(0, programs, &case.schedule, conc_sites) {
+            Err(e) => {
+                drop(c);
+                ctx.drop_dir(&scratch);
+                let mut o = Outcome::ok(false);
+                o.classes.push("watchdog");
+                eprintln!("C04 concurrent engine: {}", e);
+                return o;
+            }
+            Ok((_replies, sw)) => switches = sw,
+        }
+        if !c.run(&mut |_| 0, 400_000) {
+            fail = Some(("C04|no-quiescence".into(), format!("traffic does not stop after concurrent clients; trace tail {:?}", c.trace_tail(30))));
+        }
+    }
+    if fail.is_none() && !c.panics.is_empty() {
+        fail = Some((format!("C04|panic|{}", c.panics[0].chars().skip(3).take(50).collect::<String>()), format!("{:?}", c.panics)));
+    }
+    if fail.is_none() {
+        let (p, s) = (cluster_dump(&c, 0), cluster_dump(&c, 1));
+        if p != s {
+            let pd = p.get("d").cloned().unwrap_or_default();
+            let sd = s.get("d").cloned().unwrap_or_default();
+            let mut what = "database-list".to_string();
+            let mut detail = format!("primary {:?} secondary {:?}", p.keys().collect::<Vec<_>>(), s.keys().collect::<Vec<_>>());
+            for k in ["a", "n"] {
+                if pd.get(k) != sd.get(k) {
+                    let cmds: std::collections::BTreeSet<&'static str> = case.programs.iter().flatten().filter(|c| key_of(c).as_deref() == Some(k)).map(cmd_name).collect();
+                    what = format!("{}|{}", if k == "n" { "counter" } else { "text-key" }, cmds.into_iter().collect::<Vec<_>>().join("+"));
+                    detail = format!("key {:?}: primary has {:?}, the secondary {:?} after everything was delivered; programs {:?}", k, pd.get(k), sd.get(k), case.programs);
+                    break;
+                }
+            }
+            fail = Some((format!("C04|diverged-after-concurrent-primary-clients|{}", what), detail));
+        }
+    }
+    if fail.is_none() {
+        for i in 0..2 {
+            let p = c.nodes[i].node.as_ref().unwrap().pending_ops();
+            if p != 0 {
+                fail = Some(("C04|pending-operations-left".into(), format!("n{} still reports {} pending operations at quiescence", i, p)));
+                break;
+            }
+        }
+    }
+    drop(c);
+    ctx.drop_dir(&scratch);
+    let mut out = Outcome::ok(same_key && switches > 0);
+    if same_key && switches > 0 {
+        out.classes.push("concurrent-primary-clients-on-one-key-with-a-context-switch");
+    }
+    out.fail = fail;
+    out
+}
+
 pub fn run(ctx: &Ctx, rep: &mut Report) {
+    if rep.failures.is_empty() {
+        let n = ctx.amount(1600, 40_000);
+        explore_with(ctx, rep, "concurrent-primary-clients", n, 200, conc_case_strategy(), |c| run_conc_case(ctx, c));
+    }
     let n = ctx.amount(3200, 60_000);
     explore_with(ctx, rep, "histories", n, 200, case_strategy(), |c| run_case(ctx, c));
 }
 
-pub fn replay(ctx: &Ctx, _engine: &str, case: &J) -> Result<Option<(String, String)>, String> {
+pub fn replay(ctx: &Ctx, engine: &str, case: &J) -> Result<Option<(String, String)>, String> {
+    if engine == "concurrent-primary-clients" {
+        return replay_guarded::<ConcCase>(ctx, case, |c| run_conc_case(ctx, c));
+    }
     replay_guarded::<Case>(ctx, case, |c| run_case(ctx, c))
 }
